@@ -120,6 +120,108 @@ impl<'a> Index<'a> {
     }
 }
 
+/// Point references at containers that a choice block emitted somewhere else than the label
+/// pre-scan assumed. Only references that do not resolve as they stand are touched, and only
+/// when the redirected path does resolve.
+pub(crate) fn redirect_relocated(document: &mut Value, relocated: &[(String, String)]) {
+    if relocated.is_empty() {
+        return;
+    }
+    let mut fixes: Vec<(Vec<PathStep>, &'static str, String)> = Vec::new();
+    {
+        let Some(root) = document.get("root").filter(|root| root.is_array()) else {
+            return;
+        };
+        let mut index = Index::default();
+        index.add(root, None, String::new(), 0);
+        let mut trail = Vec::new();
+        collect_dangling(root, &mut trail, &index, relocated, &mut fixes);
+    }
+    for (trail, key, path) in fixes {
+        let mut target = &mut document["root"];
+        for step in &trail {
+            target = match step {
+                PathStep::Index(position) => &mut target[*position],
+                PathStep::Key(name) => &mut target[name.as_str()],
+            };
+        }
+        target[key] = Value::String(path);
+    }
+}
+
+enum PathStep {
+    Index(usize),
+    Key(String),
+}
+
+impl Clone for PathStep {
+    fn clone(&self) -> Self {
+        match self {
+            PathStep::Index(position) => PathStep::Index(*position),
+            PathStep::Key(name) => PathStep::Key(name.clone()),
+        }
+    }
+}
+
+fn collect_dangling(
+    value: &Value,
+    trail: &mut Vec<PathStep>,
+    index: &Index<'_>,
+    relocated: &[(String, String)],
+    fixes: &mut Vec<(Vec<PathStep>, &'static str, String)>,
+) {
+    match value {
+        Value::Array(items) => {
+            for (position, item) in items.iter().enumerate() {
+                trail.push(PathStep::Index(position));
+                collect_dangling(item, trail, index, relocated, fixes);
+                trail.pop();
+            }
+        }
+        Value::Object(map) => {
+            for key in ["->", "->t->", "f()", "*", "CNT?", "^->"] {
+                let Some(path) = map.get(key).and_then(Value::as_str) else {
+                    continue;
+                };
+                if path.starts_with('.')
+                    || map.get("var").and_then(Value::as_bool) == Some(true)
+                    || index.resolve(0, path, true).is_ok()
+                {
+                    continue;
+                }
+                let mut candidate = path.to_owned();
+                for _ in 0..16 {
+                    let step = relocated
+                        .iter()
+                        .filter(|(from, _)| {
+                            candidate == *from
+                                || candidate
+                                    .strip_prefix(from.as_str())
+                                    .is_some_and(|rest| rest.starts_with('.'))
+                        })
+                        .max_by_key(|(from, _)| from.len());
+                    let Some((from, to)) = step else {
+                        break;
+                    };
+                    candidate = format!("{to}{}", &candidate[from.len()..]);
+                    if index.resolve(0, &candidate, true).is_ok() {
+                        fixes.push((trail.clone(), key, candidate));
+                        break;
+                    }
+                }
+            }
+            for (name, item) in map {
+                if item.is_array() {
+                    trail.push(PathStep::Key(name.clone()));
+                    collect_dangling(item, trail, index, relocated, fixes);
+                    trail.pop();
+                }
+            }
+        }
+        _ => {}
+    }
+}
+
 pub(crate) fn check(document: &Value, external_functions: &[String]) -> Result<(), CompilerError> {
     let Some(root) = document.get("root").filter(|root| root.is_array()) else {
         return Ok(());
